@@ -46,7 +46,7 @@ from corr import logix_gen as lg
 # --------------------------------------------------------------------------------------------------
 REC = {"on": False, "events": [], "lock": threading.Lock(), "ctr": itertools.count(), "yield": True,
        "installed": False, "fuzz": 0.0, "nap": 0.001, "fuzz_store": 0.0,
-       "thread_name": None, "polite": 0.0}
+       "thread_name": None, "polite": 0.0, "fuzz_only": None, "fuzz_first": False, "slow": None}
 TL = threading.local()
 
 
@@ -169,7 +169,7 @@ def install():
             if REC["on"]:
                 stamp("S", tuple(addr) if addr else None)
 
-    install_fuzzer([logix.Logix.request, logix.Logix.reply_elements, logix.process, logix.setup,
+    install_fuzzer([logix.Logix.request, logix.Logix.reply_elements, logix.process, logix.setup, logix.setup_tag,
                     device.Attribute.__getitem__, device.Attribute.__setitem__, device.Attribute._validate_key,
                     device.Object.request, device.Message_Router.request, device.Message_Router.route,
                     device.Connection_Manager.request, device.state_multiple_service.terminate,
@@ -208,7 +208,13 @@ def install_fuzzer(funcs):
         if skip:
             return mon.DISABLE
         p = REC["fuzz"]
-        if p and REC["on"]:
+        if p and REC["on"] and (REC["fuzz_only"] is None or code.co_name in REC["fuzz_only"]):
+            if REC["fuzz_first"]:       # only the thread that got here first is held up; the others run freely
+                me = getattr(TL, "uid", None) or id(threading.current_thread())
+                if REC["slow"] is None:
+                    REC["slow"] = me
+                if REC["slow"] != me:
+                    return
             # the line just left by this thread stored into an attribute / item / global (the only way
             # Python code changes state another thread could see): a preemption right here is the interesting one
             prev = getattr(TL, "prev", None)
@@ -323,7 +329,18 @@ def chaos_bytes(kind, session, ctx, rng_seed):
 # helpers over requests
 # --------------------------------------------------------------------------------------------------
 def members_of(fr):
+    """the tag requests a frame carries (a Get Attribute List frame, op "gl", carries none: it is outside the
+    Lean model and checked by the oracle only)"""
+    if fr["op"] == "gl":
+        return []
     return fr["reqs"] if fr["op"] == "mu" else [fr]
+
+
+def encode_gl(fr):
+    """Get Attribute List (service 0x03) on class/instance `path`, for the attribute numbers `attrs`"""
+    c, i = fr["path"]
+    return bytes([0x03, 2, 0x20, c, 0x24, i]) + struct.pack("<H", len(fr["attrs"])) + b"".join(
+        struct.pack("<H", a) for a in fr["attrs"])
 
 
 def tag_spec(t):
@@ -348,7 +365,9 @@ class C09(Suite):
             "names or all under ONE common Thread name; parser locks optionally polite (a releasing thread lets a "
             "waiter in); peers are ephemeral 127.0.0.1 ports or explicit look-alike source addresses (127.0.0.1:2NNNN / "
             "127.0.0.12:NNNN, one port on several hosts, adjacent ports) with every second such session ending "
-            "early; the interleaving is whatever the OS/GIL produced under "
+            "early; sessions may start a few ms apart (start-up cases: Tags still to be set up, preemptions confined to "
+            "setup_tag); raw sessions also issue Get Attribute List requests for attribute numbers only they ask for "
+            "(oracle only, outside the model); the interleaving is whatever the OS/GIL produced under "
             "switch intervals 1e-6..5e-3 with injected yields, and is recorded.  evaluations = cases (concurrent "
             "runs); distinct_nontrivial = requests that were in flight together with a conflicting request "
             "(same tag, overlapping elements, at least one a write) of another session")
@@ -356,7 +375,7 @@ class C09(Suite):
         "CPython executes one list slice read / slice assignment atomically (the stamp is taken at that operation)",
         "threading.Lock provides mutual exclusion; the OS/GIL produces only interleavings of the modelled steps",
         "tags are arrays (len >= 2) of fixed-size types; Get Attributes All/List (one access per attribute) are "
-        "outside this property's generator",
+        "outside the model; Get Attribute List is exercised for non-existent attribute numbers only (oracle only)",
         "bundles are addressed to the Message Router (class 2, instance 1)",
     ]
     trusted_extra = [
@@ -461,7 +480,15 @@ class C09(Suite):
                     r["n"] = 0
         return r
 
-    def rand_frame(self, rng, tags, sid, k, bundles=True):
+    @staticmethod
+    def gl_frame(rng, sid, k):
+        """Get Attribute List for 1..3 attribute numbers nobody else asks for (and no object has)"""
+        base = 1000 + sid * 600 + (k % 100) * 5
+        return {"op": "gl", "path": rng.choice([[2, 1], [1, 1]]), "attrs": [base + j for j in range(rng.randint(1, 3))]}
+
+    def rand_frame(self, rng, tags, sid, k, bundles=True, gl=0.0):
+        if gl and rng.random() < gl:
+            return self.gl_frame(rng, sid, k)
         if bundles and rng.random() < 0.25:
             ms = [self.rand_member(rng, tags, sid, k * 8 + j) for j in range(rng.choice([1, 2, 2, 3, 4]))]
             if rng.random() < 0.15:    # an unknown tag inside a bundle is refused with 0x05, the session goes on
@@ -475,9 +502,11 @@ class C09(Suite):
         per = rng.choice([4, 8, 12, 20]) if tier == "quick" else rng.choice([8, 16, 30, 50])
         sessions = []
         for sid in range(nsess):
-            frames = [self.rand_frame(rng, tags, sid, k) for k in range(rng.randint(max(1, per // 2), per))]
-            sessions.append({"client": "cpppo" if rng.random() < 0.2 else "raw", "frames": frames, "chaos": None,
-                             "depth": rng.choice([1, 1, 2, 4])})
+            client = "cpppo" if rng.random() < 0.2 else "raw"
+            frames = [self.rand_frame(rng, tags, sid, k, gl=0.06 if client == "raw" else 0.0)
+                      for k in range(rng.randint(max(1, per // 2), per))]
+            sessions.append({"client": client, "frames": frames, "chaos": None, "depth": rng.choice([1, 1, 2, 4]),
+                             "delay": rng.choice([0, 0, 0, 0.002, 0.01, 0.03])})
         if rng.random() < 0.3:
             raws = [s for s in sessions if s["client"] == "raw"]
             if raws:
@@ -506,6 +535,48 @@ class C09(Suite):
                 "yield": rng.random() < 0.5, "fuzz": 0.0, "nap": 0.003, "fuzz_store": 0.0,
                 "thread_name": rng.choice([None, "enip"]), "polite": rng.choice([0.0, 0.5]),
                 "peers": rng.choice(["concat", "concat", "sameport", "samehost-adjacent"]),
+                "seed": rng.randrange(1 << 30)}
+
+    def startup_case(self, rng, tier):
+        """3..6 raw sessions arriving a few ms apart at a simulator whose Tags (several with explicit CIP addresses in
+        classes that do not exist yet) are still to be set up by the first request; the set-up code is preempted
+        often (schedule fuzzer): no session may be disturbed by another session's arrival during start-up"""
+        nsess = rng.choice([4, 6, 8])
+        tags = self.layout(rng, nsess)
+        names = [n for n in self.NAMES + ["T9", "b", "Cfg.Val"] if n not in [t["name"] for t in tags]]
+        used = {tuple(t["addr"]) for t in tags if t.get("addr")}
+        for j in range(rng.choice([3, 4, 5])):          # more Tags, in further not-yet-existing classes
+            addr = [rng.choice([0x93, 300, 0x401, 0x77]), rng.choice([1, 2]), rng.randint(1, 5)]
+            if tuple(addr) in used:
+                continue
+            used.add(tuple(addr))
+            tags.append({"name": names[j], "type": rng.choice(["DINT", "INT"]), "len": 4 + nsess, "addr": addr,
+                         "stripe": 2, "pw": 1, "free0": 2 + nsess, "owners": nsess})
+        sessions = []
+        for sid in range(nsess):
+            frames = [self.rand_frame(rng, tags, sid, k, bundles=False) for k in range(rng.choice([1, 2, 3]))]
+            sessions.append({"client": "raw", "frames": frames, "chaos": None, "depth": 1,
+                             "delay": 0 if sid == 0 else round(rng.uniform(0.005, 0.12), 3)})
+        # the preemptions are confined to the Tag set-up (the first request handler is held up there), so that the
+        # later arrivals find the simulator half set up
+        return {"budget": 488, "tags": tags, "sessions": sessions, "si": rng.choice([1e-6, 1e-4, 5e-3]),
+                "yield": True, "fuzz": 0.1, "nap": 0.005, "fuzz_store": 0.3, "fuzz_only": ["setup_tag"],
+                "thread_name": rng.choice([None, "enip"]), "polite": 0.0,
+                "peers": None, "seed": rng.randrange(1 << 30)}
+
+    def gal_case(self, rng, tier):
+        """2..4 raw sessions mixing Get Attribute List requests (each for attribute numbers only it asks for) with
+        tag traffic: a reply must answer the list its own request carried"""
+        nsess = rng.choice([2, 3, 4])
+        tags = self.layout(rng, nsess)
+        per = rng.choice([4, 6]) if tier == "quick" else rng.choice([8, 16])
+        sessions = []
+        for sid in range(nsess):
+            frames = [self.rand_frame(rng, tags, sid, k, gl=0.5) for k in range(per)]
+            sessions.append({"client": "raw", "frames": frames, "chaos": None, "depth": rng.choice([1, 2]), "delay": 0})
+        return {"budget": 488, "tags": tags, "sessions": sessions, "si": rng.choice([1e-6, 1e-4, 5e-3]),
+                "yield": rng.random() < 0.5, "fuzz": rng.choice([0.0, 0.01]), "nap": 0.003, "fuzz_store": 0.0,
+                "thread_name": rng.choice([None, "enip"]), "polite": rng.choice([0.0, 0.5]), "peers": None,
                 "seed": rng.randrange(1 << 30)}
 
     def storm_case(self, rng, tier):
@@ -562,18 +633,24 @@ class C09(Suite):
     def cases(self, tier, rng):
         for c in self.pair_cases():
             yield c
-        n = 28 if tier == "quick" else 180
+        n = 24 if tier == "quick" else 160
         for i in range(n):
             if i % 5 == 0:
                 yield self.storm_case(rng, tier)
             if i % 5 == 2:
                 yield self.peer_case(rng, tier)
+            if i % 3 == 1:
+                yield self.startup_case(rng, tier)
+            if i % 10 == 3:
+                yield self.gal_case(rng, tier)
             yield self.rand_case(rng, tier)
 
     def search_cases(self, tier, rng):
         while True:
             yield self.storm_case(rng, "thorough")
             yield self.peer_case(rng, "thorough")
+            yield self.startup_case(rng, "thorough")
+            yield self.gal_case(rng, "thorough")
             yield self.rand_case(rng, "thorough")
 
     # ------------------------------------------------------------------ running the real thing
@@ -609,10 +686,12 @@ class C09(Suite):
             out["port"] = s.getsockname()[1]
             out["peer"] = list(s.getsockname()[:2])
             barrier.wait(timeout=20)
+            if sess.get("delay"):           # staggered arrivals: some sessions start while others are being set up
+                time.sleep(sess["delay"])
             s.sendall(enip_frame(0x65, 0, b"register", struct.pack("<HH", 1, 0)))
             r = recv_frame(s)
             if r is None or r["status"] != 0:
-                out["error"] = "register failed"
+                out["error"] = "Register Session not answered (connection closed by the simulator)"
                 return
             out["handle"] = handle = r["session"]
             depth = max(1, int(sess.get("depth", 1)))      # requests in flight on this connection
@@ -815,7 +894,8 @@ class C09(Suite):
             # encode the raw sessions' requests with cpppo's own encoder (before the race starts)
             encoded = []
             for sess in case["sessions"]:
-                encoded.append([bytes(logix.Logix.produce(lc.req_dotdict(fr))) for fr in sess["frames"]]
+                encoded.append([encode_gl(fr) if fr["op"] == "gl" else bytes(logix.Logix.produce(lc.req_dotdict(fr)))
+                                for fr in sess["frames"]]
                                if sess["client"] == "raw" else None)
             th, ctl = self.start_server(case)
             port = ctl["address"][1]
@@ -824,6 +904,8 @@ class C09(Suite):
             REC["fuzz"] = float(case.get("fuzz", 0.0))
             REC["nap"] = float(case.get("nap", 0.001))
             REC["fuzz_store"] = float(case.get("fuzz_store", 0.0))
+            REC["fuzz_only"] = set(case["fuzz_only"]) if case.get("fuzz_only") else None
+            REC["fuzz_first"], REC["slow"] = bool(case.get("fuzz_first")), None
             REC["thread_name"] = case.get("thread_name") or None
             REC["polite"] = float(case.get("polite", 0.0))
             sys.setswitchinterval(case["si"])
@@ -846,7 +928,7 @@ class C09(Suite):
             return status + " " + obs["replies_line"] + " " + obs["dump"]
         finally:
             REC["on"] = False
-            REC["thread_name"], REC["polite"] = None, 0.0
+            REC["thread_name"], REC["polite"], REC["fuzz_only"], REC["fuzz_first"] = None, 0.0, None, False
             sys.setswitchinterval(saved_si)
             logix.Logix.MAX_BYTES = saved_max
             if ctl is not None:
@@ -897,8 +979,9 @@ class C09(Suite):
 
         # replies as the clients saw them
         lines = []
-        for o in outs:
-            reps = [(r["cip"] if r and r["cip"] else "X") for r in o["replies"] if r is not None]
+        for o, sess_ in zip(outs, case["sessions"]):
+            reps = [(r["cip"] if r and r["cip"] else "X") for r, fr_ in zip(o["replies"], sess_["frames"])
+                    if r is not None and fr_["op"] != "gl"]
             lines.append(",".join(reps) if reps else "-")
         obs["replies_line"] = "^".join(lines)
         obs["sessions"] = [{"port": o.get("port"), "peer": o.get("peer"), "handle": o.get("handle"), "replies": o["replies"],
@@ -967,6 +1050,9 @@ class C09(Suite):
                 if g is None or k >= nrep or g["S"] is None:
                     # not served (session died earlier): not part of the model's program
                     break
+                if fr["op"] == "gl":            # outside the model: no steps; must not touch tag storage
+                    fl.append({"F": g["F"], "S": g["S"], "acc": [], "extra": list(g["X"]), "statuses": []})
+                    continue
                 want = 3 + (len(mem) if fr["op"] == "mu" else 0)
                 secs = g["sec"]
                 if len(secs) != want or any(s[1] is None for s in secs):
@@ -1074,9 +1160,17 @@ class C09(Suite):
                 if r["enip"] != 0 or not r["cip"]:
                     return f"session {sid} request #{k}: encapsulation status {r['enip']:#x} (parse failure)"
                 rep = lg.parse_reply(bytes.fromhex(r["cip"]))
-                want = {"rt": 0x4c, "rf": 0x52, "wt": 0x4d, "wf": 0x53, "mu": 0x0a}[fr["op"]] | 0x80
+                want = {"rt": 0x4c, "rf": 0x52, "wt": 0x4d, "wf": 0x53, "mu": 0x0a, "gl": 0x03}[fr["op"]] | 0x80
                 if rep is None or rep["svc"] != want:
                     return f"session {sid} request #{k}: reply service {rep and rep['svc']} is not the request's ({want:#x})"
+                if fr["op"] == "gl":
+                    # the reply answers exactly the attribute numbers THIS request asked for, in order (they are
+                    # all numbers no object has: each is answered `number, status 0x16`, no value)
+                    exp = b"".join(struct.pack("<HH", a, 0x16) for a in fr["attrs"])
+                    if rep["status"] != 0 or rep["body"] != exp:
+                        got = [int.from_bytes(rep["body"][q:q + 2], "little") for q in range(0, len(rep["body"]), 4)]
+                        return (f"session {sid} request #{k}: Get Attribute List of {fr['attrs']} answered with status "
+                                f"{rep['status']:#x} for attributes {got} (a reply to something this session did not ask)")
                 if fr["op"] == "mu":
                     if rep["status"] != 0:
                         return f"session {sid} request #{k}: bundle refused with status {rep['status']:#x}"
@@ -1250,6 +1344,12 @@ class C09(Suite):
         fz = "on" if (case.get("fuzz") or case.get("fuzz_store")) else "off"
         if kind == "random" and all(fr["op"] == "mu" for s_ in case["sessions"] for fr in s_["frames"]):
             kind = "bundle-storm"
+        elif kind == "random" and sum(1 for s_ in case["sessions"] for fr in s_["frames"] if fr["op"] == "gl") * 4 >= sum(
+                len(s_["frames"]) for s_ in case["sessions"]):
+            kind = "get-attribute-list"
+        elif kind == "random" and any(s_.get("delay") for s_ in case["sessions"]) and all(
+                len(s_["frames"]) <= 3 for s_ in case["sessions"]):
+            kind = "start-up"
         elif kind == "random" and case.get("fuzz") == 0.0 and case.get("peers") and all(
                 s_["client"] == "raw" and s_.get("depth") == 1 for s_ in case["sessions"]):
             kind = "look-alike-peers"
